@@ -409,13 +409,20 @@ func MessageFromWireFormat(buf []byte) (Message, error) {
 // compression.
 type messageBuilder struct {
 	w         bytes.Buffer
-	nameCache map[string]int
+	nameCache map[string]nameCacheEntry
+}
+
+// nameCacheEntry records where a name suffix was written and how many
+// compression pointers a reader has to follow to decode the name stored there.
+type nameCacheEntry struct {
+	offset   int
+	pointers int
 }
 
 // newMessageBuilder creates a new messageBuilder with an empty name cache.
 func newMessageBuilder() *messageBuilder {
 	return &messageBuilder{
-		nameCache: make(map[string]int),
+		nameCache: make(map[string]nameCacheEntry),
 	}
 }
 
@@ -425,18 +432,28 @@ func (builder *messageBuilder) Bytes() []byte {
 }
 
 // WriteName appends name to the in-progress messageBuilder, employing
-// compression pointers to previously written names if possible.
+// compression pointers to previously written names if possible. A pointer is
+// only used when the name it leads to can be decoded within
+// compressionPointerLimit pointers, so that readName accepts every name written
+// here.
 func (builder *messageBuilder) WriteName(name Name) error {
 	// https://tools.ietf.org/html/rfc1035#section-3.1
+	// Find the longest suffix that has already been encoded in the message
+	// at an offset and pointer depth that a compression pointer may refer to.
+	split := len(name)
+	ptr := 0
+	pointers := 0
 	for i := range name {
-		// Has this suffix already been encoded in the message?
-		if ptr, ok := builder.nameCache[name[i:].String()]; ok && ptr&0x3fff == ptr {
-			// If so, we can write a compression pointer.
-			return binary.Write(&builder.w, binary.BigEndian, uint16(0xc000|ptr))
+		entry, ok := builder.nameCache[name[i:].String()]
+		if ok && entry.offset&0x3fff == entry.offset && entry.pointers < compressionPointerLimit {
+			split, ptr, pointers = i, entry.offset, entry.pointers+1
+			break
 		}
-		// Not cached; we must encode this label verbatim. Store a cache
-		// entry pointing to the beginning of it.
-		builder.nameCache[name[i:].String()] = builder.w.Len()
+	}
+	// The labels before that suffix must be encoded verbatim. Store cache
+	// entries pointing to the beginning of each of them.
+	for i := 0; i < split; i++ {
+		builder.nameCache[name[i:].String()] = nameCacheEntry{builder.w.Len(), pointers}
 		length := len(name[i])
 		if length == 0 || length > 63 {
 			panic(length)
@@ -449,6 +466,10 @@ func (builder *messageBuilder) WriteName(name Name) error {
 		if err != nil {
 			return err
 		}
+	}
+	if split < len(name) {
+		// The rest is a compression pointer.
+		return binary.Write(&builder.w, binary.BigEndian, uint16(0xc000|ptr))
 	}
 	return builder.w.WriteByte(0)
 }
